@@ -24,8 +24,9 @@ class Hang(Exception):
     pass
 
 
-def run_case(n_sims: int, transport: list, faulty: int, index: int, kind: str, timeout: float = 8.0) -> dict:
-    """transport[i] in {'local', 'remote'}; simulator `faulty` fails at its request `index` with `kind`."""
+def run_case(n_sims: int, transport: list, faulty: int, index: int, kind: str, apis: list | None = None, timeout: float = 8.0) -> dict:
+    """transport[i] in {'local', 'remote'}; simulator `faulty` fails at its request `index` with `kind`;
+    apis[i] = API version simulator i reports (None = 3.0; older ones are wrapped in adapters by mosaik)."""
     logfile = tempfile.mktemp(prefix="mosaik-verif-fault-", dir="/var/tmp")
     open(logfile, "w").close()
     sim_config = {
@@ -33,7 +34,7 @@ def run_case(n_sims: int, transport: list, faulty: int, index: int, kind: str, t
         "R": {"cmd": f"%(python)s {os.path.join(VERIF, 'harness', 'remote_sim.py')} %(addr)s",
               "env": {"PYTHONPATH": os.pathsep.join(p for p in sys.path if p)}},
     }
-    res = {"n_sims": n_sims, "transport": transport, "faulty": faulty, "index": index, "kind": kind}
+    res = {"n_sims": n_sims, "transport": transport, "faulty": faulty, "index": index, "kind": kind, "apis": apis}
     destroyed = io.StringIO()
     handler = logging.StreamHandler(destroyed)
     logging.getLogger("asyncio").addHandler(handler)
@@ -55,7 +56,8 @@ def run_case(n_sims: int, transport: list, faulty: int, index: int, kind: str, t
             ents = []
             for i in range(n_sims):
                 f = {"index": index, "kind": kind} if i == faulty else None
-                fac = world.start("L" if transport[i] == "local" else "R", sim_id=f"S{i}", logfile=logfile, fault=f)
+                extra = {"api": apis[i]} if apis and apis[i] else {}
+                fac = world.start("L" if transport[i] == "local" else "R", sim_id=f"S{i}", logfile=logfile, fault=f, **extra)
                 ents.append(fac.M())
             for i in range(n_sims - 1):
                 world.connect(ents[i], ents[i + 1], ("o", "a"))
@@ -206,7 +208,17 @@ def enumerate_cases(tier: str, rng):
                     remote.append((n, ["remote"] * n, faulty, index, kind))
     if tier == "quick":
         remote = rng.sample(remote, 14)
-    return cases + remote
+    base = cases + remote
+    # the same with healthy simulators of older API versions (wrapped in adapters); the faulty one stays at 3.0 so that the
+    # request count is the same
+    legacy = []
+    for k, c in enumerate(base):
+        if tier == "quick" and k % 3 != 0:
+            continue
+        n, tr, faulty = c[0], c[1], c[2]
+        apis = [None if i == faulty else rng.choice(["2.0", "2.2", "2.2"]) for i in range(n)]
+        legacy.append(c + (apis,))
+    return base + legacy
 
 
 def run_suite(driver, rng, tier: str) -> dict:
@@ -223,7 +235,8 @@ def run_suite(driver, rng, tier: str) -> dict:
         nreq = 1 + 3 * (1 if last else 2)
         r["fault_reached"] = c[3] < nreq
         results.append(r)
-        hist[f"{'remote' if c[1][c[2]] == 'remote' else 'local'}:{c[4]}:{r['outcome'].split(' ')[0]}" + ("" if r["fault_reached"] else ":no-fault")] += 1
+        hist[f"{'remote' if c[1][c[2]] == 'remote' else 'local'}:{c[4]}:{r['outcome'].split(' ')[0]}" + ("" if r["fault_reached"] else ":no-fault") +
+             (":legacy-api neighbours" if len(c) > 5 else "")] += 1
         vio.extend(judge(r))
         l, impl = model_line(r)
         lines.append(l)
@@ -237,7 +250,8 @@ def run_suite(driver, rng, tier: str) -> dict:
             "samples": results[:2] + results[-2:],
             "rule": ("fault enumeration on the real code: chains of 2 and 3 simulators, the faulty one failing at every request index 0-7 "
                      "(setup_done, step, get_data ...; indices beyond the run are fault-free controls); in-process: exception in the handler; "
-                     "subprocess (all local but the faulty one, and all remote): exception in the handler and process exit (os._exit)" +
+                     "subprocess (all local but the faulty one, and all remote): exception in the handler and process exit (os._exit); "
+                     "a third of the cases (quick) / all cases (thorough) again with the healthy simulators reporting API version 2.0 / 2.2 (adapter-wrapped)" +
                      ("; remote cases sampled (14)" if tier == "quick" else "; all remote cases"))}
 
 
